@@ -2,8 +2,29 @@
 from runner import H
 
 IGZIP = ['igzip/igzip.c']
+INFL = ['igzip/igzip_inflate.c']
+
+T_STRNLEN = 'strnlen (libc, no CBMC model): ASSUMED contract contracts/stubs_libc.h (r<=maxlen, r<maxlen => s[r]==0, no NUL before r)'
+T_CRC = 'crc32_gzip_refl (dispatched NASM symbol): ASSUMED contract contracts/stubs_libc.h (arbitrary value, call recorded; requires len readable bytes is checked)'
 
 HARNESSES = [
     H('zlib_write_header', ['C19'], 'igzip/zlib_hdr.c', IGZIP, enforce='isal_write_zlib_header',
-      also=['C05', 'C15', 'C10'], timeout=600, expect=['postcondition']),
+      also=['C05', 'C15', 'C10'], timeout=600, expect=['postcondition'], replay=('hdr.c', 'zlib_write_header')),
+    H('gzip_write_header', ['C19'], 'igzip/gzip_hdr.c', IGZIP, enforce='isal_write_gzip_header',
+      replace=['strnlen', 'crc32_gzip_refl'], also=['C05', 'C15', 'C10'], timeout=900,
+      expect=['postcondition', 'precondition'], replay=('hdr.c', 'gzip_write_header'),
+      trusted=[T_STRNLEN, T_CRC]),
+    # ---- readers (igzip/igzip_inflate.c)
+    H('fixed_size_read', ['C19', 'C07'], 'igzip/hdr_read.c', INFL, enforce='fixed_size_read',
+      also=['C05', 'C06', 'C15'], timeout=600, expect=['postcondition']),
+    H('buffer_header_copy', ['C19', 'C07'], 'igzip/hdr_read.c', INFL, enforce='buffer_header_copy',
+      also=['C05', 'C06', 'C15'], timeout=600, expect=['postcondition']),
+    H('string_header_copy', ['C19', 'C07'], 'igzip/hdr_read.c', INFL, enforce='string_header_copy',
+      replace=['strnlen'], also=['C05', 'C06', 'C15'], timeout=600, expect=['postcondition', 'precondition'],
+      trusted=[T_STRNLEN]),
+    H('zlib_read_header', ['C19', 'C07'], 'igzip/hdr_read.c', INFL, enforce='isal_read_zlib_header',
+      also=['C05', 'C06', 'C15'], timeout=600, expect=['postcondition']),
+    H('gzip_read_header', ['C19', 'C07'], 'igzip/hdr_read.c', INFL, enforce='isal_read_gzip_header',
+      replace=['strnlen', 'crc32_gzip_refl'], also=['C05', 'C06', 'C15'], timeout=900,
+      expect=['postcondition', 'precondition'], trusted=[T_STRNLEN, T_CRC]),
 ]
